@@ -38,6 +38,8 @@ def strategy(tier):
         "alias": st.sampled_from([None, None, None, "nofollow", "follow"]),
         # the same process documented the same path before, when the subdirectories were still empty
         "warm": st.sampled_from([False, False, True]),
+        # the input path passes through a symbolic link (a linked parent directory)
+        "via_link": st.sampled_from([False, False, False, True]),
     })
 
 
@@ -111,6 +113,10 @@ def evaluate(case):
                 # followed links are ordinary directories with the target's content; links not followed are not processed
                 tree = {"files": tree["files"], "dirs": dict(tree["dirs"], zz_alias=copy.deepcopy(tree["dirs"][target]),
                                                               zz_alias2=copy.deepcopy(tree["dirs"][target]))}
+        if case.get("via_link"):
+            os.symlink(sb.root, sb.path("zz_parent_link"))
+            inp = os.path.join(sb.path("zz_parent_link"), "in")
+            res.labels.append("input-through-symlinked-parent")
         cwd = sb.path("cwd")
         if case["outloc"] == "abs":
             out_arg, out_abs = sb.path("out"), sb.path("out")
